@@ -14,12 +14,12 @@ open ZygoVerif.Core ZygoVerif.VM
 /-! ## `fn`, `defn` -/
 
 /-- the template `buildSexpFun` registers -/
-def tmplOf (isFn : Nat → Bool) (gs : GS) (fname : String) (ps : List String) : FnObj :=
-  { name := fname, nargs := ps.length, varargs := false, params := ps, closing := newClosing isFn gs.live }
+def tmplOf (isFn : Nat → Bool) (gs : GS) (fname : String) (ps : List String) (rest : Option String) : FnObj :=
+  { name := fname, nargs := ps.length, varargs := rest.isSome, params := ps ++ rest.toList, closing := newClosing isFn gs.live }
 
 /-- the generator state after `allocTemplate` -/
-def gsAlloc (isFn : Nat → Bool) (gs : GS) (fname : String) (ps : List String) : GS :=
-  { gs with fns := gs.fns ++ [tmplOf isFn gs fname ps] }
+def gsAlloc (isFn : Nat → Bool) (gs : GS) (fname : String) (ps : List String) (rest : Option String) : GS :=
+  { gs with fns := gs.fns ++ [tmplOf isFn gs fname ps rest] }
 
 /-- the template with its code -/
 def finTmpl (g₂ : GS) (t : Nat) (b : List Instr) : FnObj :=
@@ -29,17 +29,17 @@ def finTmpl (g₂ : GS) (t : Nat) (b : List Instr) : FnObj :=
 def gsFin (g₂ : GS) (t : Nat) (b : List Instr) : GS := { g₂ with fns := g₂.fns.set t (finTmpl g₂ t b) }
 
 /-- the context in which the body of `defn name` is compiled -/
-def bodyCtx (c : Ctx) (gs : GS) (name : String) (ps : List String) (body : List Expr) : Ctx :=
-  { tail := true, scopes := 0, funcname := if !rebindsOwnName name ps none body then name else "", known := (name, gs.fns.length) :: c.known }
+def bodyCtx (c : Ctx) (gs : GS) (name : String) (ps : List String) (rest : Option String) (body : List Expr) : Ctx :=
+  { tail := true, scopes := 0, funcname := if !rebindsOwnName name ps rest body then name else "", known := (name, gs.fns.length) :: c.known }
 
 /-- the context in which the body of an anonymous function is compiled -/
 def anonCtx (c : Ctx) (gs : GS) : Ctx :=
   { tail := true, scopes := 0, funcname := s!"__anon{gs.fns.length}", known := c.known }
 
-theorem compile_defn_eq (isFn : Nat → Bool) (c : Ctx) (name : String) (ps : List String) (body : List Expr) (gs g₂ : GS)
-    (b : List Instr) (tl : Bool) (hname : name ≠ "")
-    (hb : (compileBegin isFn (bodyCtx c gs name ps body) body).run (gsAlloc isFn gs name ps) = .ok ((b, tl), g₂)) :
-    (compile isFn c (.defn name ps none body)).run gs =
+theorem compile_defn_eq (isFn : Nat → Bool) (c : Ctx) (name : String) (ps : List String) (rest : Option String)
+    (body : List Expr) (gs g₂ : GS) (b : List Instr) (tl : Bool) (hname : name ≠ "")
+    (hb : (compileBegin isFn (bodyCtx c gs name ps rest body) body).run (gsAlloc isFn gs name ps rest) = .ok ((b, tl), g₂)) :
+    (compile isFn c (.defn name ps rest body)).run gs =
       .ok (([.createClosure gs.fns.length, .popStackPutEnv name, .push .nil], c.tail), gsFin g₂ gs.fns.length b) := by
   rw [compile]
   have hemp : name.isEmpty = false := by
@@ -47,24 +47,24 @@ theorem compile_defn_eq (isFn : Nat → Bool) (c : Ctx) (name : String) (ps : Li
   unfold allocTemplate finishTemplate
   simp only [bind, StateT.bind, StateT.run, get, getThe, MonadStateOf.get, StateT.get, pure, Except.pure, Except.bind,
     set, StateT.set, StateT.pure, modify, modifyGet, MonadStateOf.modifyGet, StateT.modifyGet, hemp, Bool.false_eq_true,
-    if_false, Option.toList, List.append_nil, Option.isSome]
+    if_false]
   have hb' := hb
   unfold bodyCtx gsAlloc tmplOf at hb'
   simp only [StateT.run] at hb'
   rw [hb']
   rfl
 
-theorem compile_fn_eq (isFn : Nat → Bool) (c : Ctx) (ps : List String) (body : List Expr) (gs g₂ : GS)
+theorem compile_fn_eq (isFn : Nat → Bool) (c : Ctx) (ps : List String) (rest : Option String) (body : List Expr) (gs g₂ : GS)
     (b : List Instr) (tl : Bool)
-    (hb : (compileBegin isFn (anonCtx c gs) body).run (gsAlloc isFn gs s!"__anon{gs.fns.length}" ps) = .ok ((b, tl), g₂)) :
-    (compile isFn c (.fn ps none body)).run gs =
+    (hb : (compileBegin isFn (anonCtx c gs) body).run (gsAlloc isFn gs s!"__anon{gs.fns.length}" ps rest) = .ok ((b, tl), g₂)) :
+    (compile isFn c (.fn ps rest body)).run gs =
       .ok (([.createClosure gs.fns.length], c.tail), gsFin g₂ gs.fns.length b) := by
   rw [compile]
   have hemp : ("" : String).isEmpty = true := by decide
   unfold allocTemplate finishTemplate
   simp only [bind, StateT.bind, StateT.run, get, getThe, MonadStateOf.get, StateT.get, pure, Except.pure, Except.bind,
     set, StateT.set, StateT.pure, modify, modifyGet, MonadStateOf.modifyGet, StateT.modifyGet, hemp,
-    if_true, Option.toList, List.append_nil, Option.isSome]
+    if_true]
   have hb' := hb
   unfold anonCtx gsAlloc tmplOf at hb'
   simp only [StateT.run] at hb'
@@ -77,18 +77,18 @@ theorem newClosing_single (isFn : Nat → Bool) : newClosing isFn [some 0] = [so
   split <;> simp [newClosing.go]
 
 /-- the completed template, when the body's compile kept the table -/
-theorem finTmpl_eq (isFn : Nat → Bool) (gs g₂ : GS) (fname : String) (ps : List String) (b : List Instr)
-    (hk : KeepFns (gsAlloc isFn gs fname ps) g₂) :
-    finTmpl g₂ gs.fns.length b = { tmplOf isFn gs fname ps with code := fnCode gs.fns.length ps b } := by
-  have h : g₂.fns.getD gs.fns.length {} = tmplOf isFn gs fname ps := by
+theorem finTmpl_eq (isFn : Nat → Bool) (gs g₂ : GS) (fname : String) (ps : List String) (rest : Option String) (b : List Instr)
+    (hk : KeepFns (gsAlloc isFn gs fname ps rest) g₂) :
+    finTmpl g₂ gs.fns.length b = { tmplOf isFn gs fname ps rest with code := fnCode gs.fns.length (ps ++ rest.toList) b } := by
+  have h : g₂.fns.getD gs.fns.length {} = tmplOf isFn gs fname ps rest := by
     rw [hk.fns gs.fns.length (by simp [gsAlloc])]
     simp [gsAlloc, List.getD_eq_getElem?_getD]
   unfold finTmpl
   rw [h]
   rfl
 
-theorem keepFns_fin (isFn : Nat → Bool) (gs g₂ : GS) (fname : String) (ps : List String) (b : List Instr)
-    (hk : KeepFns (gsAlloc isFn gs fname ps) g₂) : KeepFns gs (gsFin g₂ gs.fns.length b) := by
+theorem keepFns_fin (isFn : Nat → Bool) (gs g₂ : GS) (fname : String) (ps : List String) (rest : Option String) (b : List Instr)
+    (hk : KeepFns (gsAlloc isFn gs fname ps rest) g₂) : KeepFns gs (gsFin g₂ gs.fns.length b) := by
   have hl : gs.fns.length + 1 ≤ g₂.fns.length := by have := hk.len; simpa [gsAlloc] using this
   refine ⟨by simp [gsFin]; omega, fun t ht => ?_, hk.live, hk.loopsLen, hk.loopsGet, hk.loopstack⟩
   simp only [gsFin, List.getD_eq_getElem?_getD]
@@ -115,8 +115,8 @@ theorem ff_call_ne {self h : String} {c : Ctx} (hc : FnameOk self c)
     simp only [Bool.and_eq_true, Bool.not_eq_true'] at h3
     exact ne_anon t h h3.2
 
-theorem bodyCtx_funcname (c : Ctx) (gs : GS) (name : String) (ps : List String) (body : List Expr) :
-    FnameOk name (bodyCtx c gs name ps body) := by
+theorem bodyCtx_funcname (c : Ctx) (gs : GS) (name : String) (ps : List String) (rest : Option String) (body : List Expr) :
+    FnameOk name (bodyCtx c gs name ps rest body) := by
   unfold bodyCtx FnameOk
   simp only
   split
@@ -279,21 +279,19 @@ theorem compile_total_Ff : ∀ (fnOk : Bool) (self : String) (e : Expr), Ff fnOk
     simp only [Bool.and_eq_true, Option.isNone_iff_eq_none, decide_eq_true_eq, Bool.not_eq_true',
       List.isEmpty_eq_false_iff] at he
     obtain ⟨⟨⟨⟨⟨hfnok, hrest⟩, hnd⟩, hps⟩, hbody⟩, hff⟩ := he
-    subst hrest
     obtain ⟨b, tl, g2, hb, _, hk2⟩ := compileBegin_total_Ff true "" body hbody hff isFn (anonCtx c gs)
-      (gsAlloc isFn gs s!"__anon{gs.fns.length}" ps) (anonCtx_funcname c gs)
-    exact ⟨_, _, _, compile_fn_eq isFn c ps body gs g2 b tl hb, by simp,
-      keepFns_fin isFn gs g2 _ ps b hk2.1, fun h => by rw [hfnok] at h; cases h⟩
+      (gsAlloc isFn gs s!"__anon{gs.fns.length}" ps rest) (anonCtx_funcname c gs)
+    exact ⟨_, _, _, compile_fn_eq isFn c ps rest body gs g2 b tl hb, by simp,
+      keepFns_fin isFn gs g2 _ ps rest b hk2.1, fun h => by rw [hfnok] at h; cases h⟩
   | fnOk, self, .defn name ps rest body, he, isFn, c, gs, hfn => by
     rw [Ff] at he
     simp only [Bool.and_eq_true, Option.isNone_iff_eq_none, bne_iff_ne, ne_eq, decide_eq_true_eq, Bool.not_eq_true',
       List.isEmpty_eq_false_iff] at he
     obtain ⟨⟨⟨⟨⟨⟨⟨hfnok, hrest⟩, hname⟩, hne⟩, hnd⟩, hps⟩, hbody⟩, hff⟩ := he
-    subst hrest
-    obtain ⟨b, tl, g2, hb, _, hk2⟩ := compileBegin_total_Ff true name body hbody hff isFn (bodyCtx c gs name ps body)
-      (gsAlloc isFn gs name ps) (bodyCtx_funcname c gs name ps body)
-    exact ⟨_, _, _, compile_defn_eq isFn c name ps body gs g2 b tl hne hb, by simp,
-      keepFns_fin isFn gs g2 _ ps b hk2.1, fun h => by rw [hfnok] at h; cases h⟩
+    obtain ⟨b, tl, g2, hb, _, hk2⟩ := compileBegin_total_Ff true name body hbody hff isFn (bodyCtx c gs name ps rest body)
+      (gsAlloc isFn gs name ps rest) (bodyCtx_funcname c gs name ps rest body)
+    exact ⟨_, _, _, compile_defn_eq isFn c name ps rest body gs g2 b tl hne hb, by simp,
+      keepFns_fin isFn gs g2 _ ps rest b hk2.1, fun h => by rw [hfnok] at h; cases h⟩
   | _, _, .break_ _, he, _, _, _, _ | _, _, .continue_ _, he, _, _, _, _
   | _, _, .assign _ _, he, _, _, _, _ | _, _, .bad _, he, _, _, _, _ => by
     simp [Ff] at he
@@ -641,11 +639,11 @@ theorem compile_total_call {self h : String} {args : List Expr} (hh : (h != "") 
 
 /-! ## What the generator knows about the function being compiled -/
 
-theorem knownOk_bodyCtx (isFn : Nat → Bool) (c : Ctx) (gs : GS) (name : String) (ps : List String) (body : List Expr) :
-    KnownOk (bodyCtx c gs name ps body) (gsAlloc isFn gs name ps) ps := by
+theorem knownOk_bodyCtx (isFn : Nat → Bool) (c : Ctx) (gs : GS) (name : String) (ps : List String) (rest : Option String)
+    (body : List Expr) : KnownOk (bodyCtx c gs name ps rest body) (gsAlloc isFn gs name ps rest) ps rest := by
   intro hne
   right
-  have hf : (bodyCtx c gs name ps body).funcname = name := by
+  have hf : (bodyCtx c gs name ps rest body).funcname = name := by
     unfold bodyCtx at hne ⊢
     simp only at hne ⊢
     split
@@ -655,7 +653,8 @@ theorem knownOk_bodyCtx (isFn : Nat → Bool) (c : Ctx) (gs : GS) (name : String
   refine ⟨gs.fns.length, by simp [bodyCtx, List.lookup], by simp [gsAlloc], ?_, ?_, ?_⟩ <;>
     simp [gsAlloc, tmplOf, List.getD_eq_getElem?_getD]
 
-theorem knownOk_anonCtx (c : Ctx) (gs gs0 : GS) (ps : List String) : KnownOk (anonCtx c gs) gs0 ps :=
+theorem knownOk_anonCtx (c : Ctx) (gs gs0 : GS) (ps : List String) (rest : Option String) :
+    KnownOk (anonCtx c gs) gs0 ps rest :=
   fun _ => Or.inl ⟨gs.fns.length, rfl⟩
 
 
